@@ -4,5 +4,8 @@ CONSTANTS
   Kinds = {"var", "func", "stmt", "flitres"}
   Variants = {"plain"}
   FuncExprIsDecl = FALSE
+  ParenIsNesting = FALSE
+  ImportIsDecl = FALSE
+  TrailingCommentStays = FALSE
 INVARIANTS WantIsStatement CodeKeepsBytes SplitSane CodeMeetsStatement Export
 PROPERTY Terminates
